@@ -62,7 +62,8 @@ REQUIRED = ['sharded_cases', 'interleaved_cases', 'strict_cnt_checks', 'batches_
             'concurrent_one_pool_cases', 'concurrent_runs_overlapped', 'concurrent_runs_compared',
             'merge_failing_cases', 'merge_failing_sharded_cases', 'merge_threads_observed',
             'concurrent_differing_settings_cases', 'failing_shard_cases', 'failing_shard_runs_raised',
-            'aggregate_channel_inspected_after_error']
+            'aggregate_channel_inspected_after_error', 'sharded_parallel_client_cases',
+            'sharded_parallel_client_more_shards_than_workers']
 # Mechanism keys of the audited root causes.
 # WorkerPool.iterate never acquires / reserves the workers it schedules shards on: two
 # runs send init_generator to the same worker, the second replaces the first generator
@@ -183,14 +184,17 @@ def in_process(spec):
   return outs, it.agg_result
 
 
-def run_sharded(spec, W, K, ibs, delay_rng):
+def run_sharded(spec, W, K, ibs, delay_rng, maxpar=1):
   from vlib import c16lib, cwork
   import courier
   from ml_metrics._src.chainables import courier_worker, orchestrate
   servers = cwork.start_servers(W, 'c16w')
   try:
+    # max_parallelism > 1 lets a client have several calls in flight; a server
+    # still runs one shard at a time (one generator slot).
     pool = courier_worker.WorkerPool(
-        [s.address for s in servers], call_timeout=60, iterate_batch_size=ibs)
+        [s.address for s in servers], call_timeout=60, iterate_batch_size=ibs,
+        max_parallelism=maxpar)
     pool.wait_until_alive(deadline_secs=60, minimum_num_workers=W)
     rq = queue.SimpleQueue()
     want_agg = spec.get('agg') is not None or spec.get('agg2') is not None
@@ -306,7 +310,8 @@ def run_case_spec(ctx, case):
 
   def go():
     if driver == 'sharded':
-      return run_sharded(spec, case['W'], case['K'], case['ibs'], None)
+      return run_sharded(spec, case['W'], case['K'], case['ibs'], None,
+                         maxpar=case.get('maxpar', 1))
     return run_interleaved(spec, case['W'], case['buf'], case['with_pool'])
 
   # Seeded transport latencies (no faults): some replies are held back for a few
@@ -337,9 +342,13 @@ def run_case_spec(ctx, case):
       return
     ctx.inconclusive_case('first attempt hit the watchdog, retry completed', case)
   ctx.count('sharded_cases' if driver == 'sharded' else 'interleaved_cases')
+  if driver == 'sharded' and case.get('maxpar', 1) > 1:
+    ctx.count('sharded_parallel_client_cases')
+    if case['K'] > case['W']:
+      ctx.count('sharded_parallel_client_more_shards_than_workers')
   nontrivial = spec['n'] >= 2 and (case['W'] >= 2 or case.get('K', 1) >= 2)
   ctx.case((spec, driver, case['W'], case.get('K'), case.get('ibs'), case.get('buf'),
-            case.get('with_pool')), nontrivial)
+            case.get('with_pool'), case.get('maxpar')), nontrivial)
   if exc is not None:
     ctx.violation('distributed_run_raised', case,
                   {'error': f'{type(exc).__name__}: {str(exc)[:300]}'},
@@ -814,6 +823,9 @@ def run_chunk(ctx, spec):
     if i % 2 == 0:
       case = {'spec': pspec, 'driver': 'sharded', 'W': W,
               'K': rng.randint(1, 6), 'ibs': rng.randint(1, 4)}
+      # (own generator: the other fields of the cases stay what they were)
+      case['maxpar'] = random.Random(repr(sorted(case.items(), key=str))).choice(
+          [1, 1, 2, 3, 4])
     else:
       case = {'spec': pspec, 'driver': 'interleaved', 'W': W,
               'buf': rng.randint(0, 3), 'with_pool': rng.random() < 0.75}
